@@ -256,9 +256,11 @@ TypeCases ==
    \* without a prefix, to the imported one with a prefix
    homonym_default |-> << Xsd("main.xsd", "Unear", << <<"", "Unear">>, <<"o", "Ufar">> >>,
                     << Imp("Ufar", "base.xsd"),
-                       Cx("LeafType", T("", "BaseType"), << El("leafItem", B("string"), 1, "1") >>, <<>>),
-                       Cx("MidType", T("o", "BaseType"), << El("midItem", B("long"), 0, "unb") >>, <<>>),
-                       Cx("BaseType", None, << El("otherValue", B("string"), 1, "1") >>, << At("leafKey", B("string"), "opt") >>) >>),
+                       Cx("LeafType", T("", "BaseType"), << El("leafItem", B("string"), 1, "1"), Ref("", "GlobalThing", 0, "1") >>, <<>>),
+                       Cx("MidType", T("o", "BaseType"), << El("midItem", B("long"), 0, "unb"), El("farValue", T("", "CodeType"), 0, "1") >>, <<>>),
+                       Cx("BaseType", None, << El("otherValue", B("string"), 1, "1") >>, << At("leafKey", B("string"), "opt") >>),
+                       Simple("CodeType", B("string"), << <<"maxLen", 8>> >>),
+                       ElemI("GlobalThing", << El("thingValue", B("int"), 1, "1") >>) >>),
                       Xsd("base.xsd", "Ufar", << <<"o", "Ufar">> >>,
                     << Cx("BaseType", None, << El("baseItem", B("string"), 1, "1"), El("baseCount", B("int"), 0, "1") >>, << At("baseKey", B("string"), "req") >>) >>) >>,
    \* members of TWO other namespaces in one struct: inherited from a base of Ufar, referred to in Uthird
